@@ -2262,11 +2262,9 @@ bool NifFile::RenameDuplicateShapes() {
 	};
 
 	bool renamed = false;
-	auto nodes = GetChildren<NiNode>();
 
-	auto root = GetRootNode();
-	if (root)
-		nodes.push_back(root);
+	// All nodes, not only the root and its direct children
+	auto nodes = GetNodes();
 
 	for (auto& node : nodes) {
 		int dupCount = 0;
@@ -2286,7 +2284,8 @@ bool NifFile::RenameDuplicateShapes() {
 				if (duped) {
 					std::string dup = "_" + std::to_string(dupCount);
 
-					while (countDupes(node, shapeName + dup) > 1) {
+					// The new name must not be taken by any sibling
+					while (countDupes(node, shapeName + dup) > 0) {
 						dupCount++;
 						dup = "_" + std::to_string(dupCount);
 					}
